@@ -23,8 +23,29 @@ def two_ready_prefix():
     return [{"a": "connect"}, {"a": "connect"}, {"a": "feed", "c": 1, "ms": [_cer("p1.r1")]}, {"a": "feed", "c": 2, "ms": [_cer("p2.r1")]}]
 
 
+def held_idle_prefix():
+    """one ready connection with a request held by the application, left idle until the node has sent its watchdog request"""
+    from .. import nodetrace as nt
+    return [{"a": "connect"}, {"a": "feed", "c": 1, "ms": [_cer("p1.r1")]},
+            {"a": "feed", "c": 1, "ms": [nt.M("APP", True, 1, 1, app=4, oh="p1.r1", realm="r1")]}, {"a": "tick"}, {"a": "tick"}, {"a": "tick"}]
+
+
+def two_connections_prefix():
+    """one peer with two established connections; a request arrives on the second one and is held"""
+    from .. import nodetrace as nt
+    return [{"a": "connect"}, {"a": "connect"}, {"a": "feed", "c": 1, "ms": [_cer("p1.r1")]}, {"a": "feed", "c": 2, "ms": [_cer("p1.r1")]},
+            {"a": "feed", "c": 2, "ms": [nt.M("APP", True, 1, 1, app=4, oh="p1.r1", realm="r1")]}]
+
+
 def enum_plans(tier):
     th = tier == "thorough"
     # two ready connections of two peers; the same hop-by-hop id in flight on both (equal and different end-to-end ids);
     # answers submitted in every order, also twice
-    return [dict(cfg="HOLD2", depth=6 if th else 5, maxtime=0, alpha=["req1", "req2"] + (["resub"] if True else []), faults=False, maxconn=2, prefix=two_ready_prefix())]
+    return [dict(cfg="HOLD2", depth=6 if th else 5, maxtime=0, alpha=["req1", "req2"] + (["resub"] if True else []), faults=False, maxconn=2, prefix=two_ready_prefix()),
+            # the handler raises, the node answers 5012 itself, the application submits an answer afterwards (also twice)
+            dict(cfg="RAISE", depth=6 if th else 5, maxtime=0, alpha=["cerok", "req1", "req2", "resub"], faults=False, maxconn=1),
+            # a request is held while the connection goes through watchdog and disconnect exchanges (in every order, with late
+            # answers), then the application answers: the submission fails unless the connection is still in service
+            dict(cfg="HOLD2", depth=5 if th else 4, maxtime=5, alpha=["dpr", "dwa", "dwr", "resub"], faults=False, maxconn=1, prefix=held_idle_prefix()),
+            # the requesting connection is the peer's second one; it leaves service (DPR, close) before the answer is submitted
+            dict(cfg="HOLD2", depth=4 if th else 3, maxtime=0, alpha=["dpr", "req2", "resub"], faults=True, maxconn=2, prefix=two_connections_prefix())]
